@@ -296,6 +296,7 @@ theorem C05_step_conserves (e : HEnv) (he : e.ok) (t : TD α) (h : t.Inv) (op : 
     show (([] : List α) ++ t.data.take k ++ t.data.drop k ++ []).Perm (t.data ++ [])
     simp
   | inplace op => exact (fl_step_inplace e t h op hop).1
+  | viaView s e' ops => exact (fl_step_viaView e t h s e' ops hop).1
 
 /-- **any history conserves elements** -/
 theorem C05_history_conserves (e : HEnv) (he : e.ok) (t : TD α) (h : t.Inv) (ops : List (HOp α)) (hops : ∀ op ∈ ops, op.wf) :
@@ -399,6 +400,7 @@ theorem C05_step_no_leak (e : HEnv) (he : e.ok) (t : TD α) (h : t.Inv) (op : HO
   | capacityCall => rfl
   | takeInto k => rfl
   | inplace op => exact (fl_step_inplace e t h op hop).2
+  | viaView s e' ops => exact (fl_step_viaView e t h s e' ops hop).2
 
 theorem C05_history_no_leak (e : HEnv) (he : e.ok) (t : TD α) (h : t.Inv) (ops : List (HOp α)) (hops : ∀ op ∈ ops, op.wf)
     (hon : ∀ op ∈ ops, op.honest) :
